@@ -15,6 +15,7 @@ CONSTANTS
   RegWindows = {"ok", "expired", "notYet"}
   RegUsages = {"client", "server"}
   RegOthers = {TRUE}
+  TwoCNs = {TRUE}
   Routes = {"manifest", "lstatus", "sstatus", "events", "logs", "shell"}
   DTokens = {"own", "other", "alpha", "overflow"}
   GTokens = {"own", "other", "alpha"}
